@@ -96,7 +96,7 @@ func startTagLines(src, tag string, occurrence int) (int, int) {
 }
 
 func runC17(res *Result, tier string, seed int64, replay string) {
-	res.Rule = "(1) EXHAUSTIVE matrix: every body component in a legal context × every attribute name from the union of all known names + invented ones (bogus, data-x, aria-y, class, css-class, mj-class, empty-looking names): error reported ⇔ the Spec (JSON table + always-accepted names) rejects, exactly one detail for the offending (tag, attribute), nothing else; HTML equal to the HTML of the same document without the attribute when the attribute is invalid. (2) seeded grammar documents with 1–4 invalid attributes injected at random elements, multi-line start tags, three layouts (one element per line, the whole document on one line, the first elements on the line of the root), void HTML tags inside mj-text written over several lines, documents preceded by comments and blank lines, also mixed with material that is kept (XML declaration, doctype, byte-order mark) in every order: every reported line must lie within the lines of that element's start tag in the ORIGINAL input; details = injected set. end tags written over several lines; (3) line lookup: real lineLookup (verif export) vs 1 + count of newlines, offsets queried in random order; (4) the three textual pre-passes and their composition byte for byte against the Lean Models (driver `strip` `amp` `ent` `wrap` `pre`) on the documents of (2) and on texts made of the pieces wrapMJTextContent and its void-tag pattern look at. Non-trivial = cell or document with an offending attribute; distinct by cell / source"
+	res.Rule = "(1) EXHAUSTIVE matrix: every body component in a legal context × every attribute name from the union of all known names + invented ones (bogus, data-x, aria-y, class, css-class, mj-class, empty-looking names): error reported ⇔ the Spec (JSON table + always-accepted names) rejects, exactly one detail for the offending (tag, attribute), nothing else; HTML equal to the HTML of the same document without the attribute when the attribute is invalid. (1b) the same for the head elements, each written self-closing, empty, blank and with content (validation must not depend on the element having content). (2) seeded grammar documents with 1–4 invalid attributes injected at random elements, multi-line start tags, three layouts (one element per line, the whole document on one line, the first elements on the line of the root), void HTML tags inside mj-text written over several lines, documents preceded by comments and blank lines, also mixed with material that is kept (XML declaration, doctype, byte-order mark) in every order: every reported line must lie within the lines of that element's start tag in the ORIGINAL input; details = injected set. end tags written over several lines; (3) line lookup: real lineLookup (verif export) vs 1 + count of newlines, offsets queried in random order; (4) the three textual pre-passes and their composition byte for byte against the Lean Models (driver `strip` `amp` `ent` `wrap` `pre`) on the documents of (2) and on texts made of the pieces wrapMJTextContent and its void-tag pattern look at. Non-trivial = cell or document with an offending attribute; distinct by cell / source"
 	// ---- (1) matrix
 	names := map[string]bool{}
 	for _, t := range bodyTags {
@@ -171,6 +171,67 @@ func runC17(res *Result, tier string, seed int64, replay string) {
 			res.Violate(Violation{Sig: sig + "|" + c.tag + "/" + c.attr, Kind: "cell", What: what, Input: map[string]string{"source": with}})
 		}
 	})
+	// ---- (1b) head elements: every head tag the table knows × how the element is written (self-closing, empty, blank,
+	// with content) × an attribute name: validation must not depend on whether the element has any content
+	if replay == "" {
+		// (mj-breakpoint has a table entry but no component in gomjml: nothing "its component does not accept", see DESIGN §10.3)
+		headTags := []string{"mj-title", "mj-preview", "mj-style", "mj-font", "mj-head", "mj-attributes", "mj-html-attributes"}
+		headContent := map[string]string{"mj-title": "T", "mj-preview": "P", "mj-style": ".a{color:red}", "mj-attributes": `<mj-text color="red"/>`,
+			"mj-html-attributes": `<mj-selector path=".x"><mj-html-attribute name="data-id">1</mj-html-attribute></mj-selector>`}
+		needed := map[string]string{"mj-font": ` name="F" href="https://f.example/f.css"`}
+		for _, t := range headTags {
+			for _, a := range []string{"bogus", "media", "inlne", "inline", "name", "href", "width", "data-x", "css-class"} {
+				if strings.Contains(needed[t], " "+a+"=") {
+					continue
+				}
+				shapes := []string{"self-closing", "empty", "blank", "blank-lines"}
+				if headContent[t] != "" {
+					shapes = append(shapes, "content", "comment-only")
+				}
+				for _, sh := range shapes {
+					at := needed[t] + " " + a + `="v"`
+					var el string
+					switch sh {
+					case "self-closing":
+						el = "<" + t + at + "/>"
+					case "empty":
+						el = "<" + t + at + "></" + t + ">"
+					case "blank":
+						el = "<" + t + at + "> \t </" + t + ">"
+					case "blank-lines":
+						el = "<" + t + at + ">\n\n  </" + t + ">"
+					case "content":
+						el = "<" + t + at + ">" + headContent[t] + "</" + t + ">"
+					case "comment-only":
+						el = "<" + t + at + "><!-- c --></" + t + ">"
+					}
+					src := "<mjml><mj-head>" + el + "</mj-head><mj-body><mj-section><mj-column><mj-text>T</mj-text></mj-column></mj-section></mj-body></mjml>"
+					if t == "mj-head" {
+						src = "<mjml><mj-head" + at + ">" + map[string]string{"self-closing": "", "empty": "", "blank": " ", "blank-lines": "\n\n", "content": "", "comment-only": ""}[sh] + "</mj-head><mj-body><mj-section><mj-column><mj-text>T</mj-text></mj-column></mj-section></mj-body></mjml>"
+					}
+					_, err := renderPlain(src)
+					ds, isVal := detailsOf(err)
+					want := !specAccepted(t, a)
+					res.Case("head/"+t+"/"+a+"/"+sh, want)
+					res.Count("head-shape=" + sh)
+					sig, what := "", ""
+					switch {
+					case err != nil && !isVal:
+						continue // not a document the property speaks about
+					case want && len(ds) == 0:
+						sig, what = "invalid-attribute-not-reported", "the head element does not accept this attribute, no error was returned (element written "+sh+")"
+					case !want && len(ds) > 0:
+						sig, what = "accepted-attribute-reported", fmt.Sprintf("reported %v although the element accepts it", ds)
+					case want && (len(ds) != 1 || ds[0].tag != t || ds[0].attr != a):
+						sig, what = "details-not-exact", fmt.Sprintf("details %v, want exactly one (%s, %s)", ds, t, a)
+					}
+					if sig != "" {
+						res.Violate(Violation{Sig: sig + "|head/" + t + "/" + a + "/" + sh, Kind: "cell", What: what, Input: map[string]string{"source": src}})
+					}
+				}
+			}
+		}
+	}
 	// ---- (2) injected documents with line checks (sequential: heads differ)
 	n := 300
 	if tier == "thorough" {
